@@ -152,6 +152,8 @@ class Report:
                 'instances found %d < floor %d (anchor missing: the rule would pass vacuously)' % (found, minimum) if found < minimum else 'instances %d >= floor %d' % (found, minimum))
 
     def finish(self):
+        if terms.LEN_CONFLICTS:
+            raise facts.MachineryError('inconsistent byte lengths recorded for one term: %s' % terms.LEN_CONFLICTS[:3])
         known = load_known_findings()
         fails = {}
         for o in self.obligations:
